@@ -407,6 +407,31 @@ static void runThreaded(const Case& c, Out& o, const Problem& p, const PolarGrid
                     X[(size_t)i * N + j] = b[i];
             }
             o.mat(nm, N, N, X.data());
+            // homogeneity: uniformly tiny / huge right-hand sides s*e_j must give s*x_j (no absolute thresholds in the solve)
+            {
+                static const double scales[] = {1e-20, 1e-150, 1e150, 1e-300};
+                std::vector<double> hom(4, 0.0);
+                for (int si = 0; si < 4; si++) {
+                    const double sc = scales[si];
+                    for (int j = 0; j < N; j++) {
+                        zero(b);
+                        b[j] = sc;
+                        ds->solveInPlace(b);
+                        double colmax = 0, dev = 0;
+                        for (int i = 0; i < N; i++)
+                            colmax = std::max(colmax, std::fabs(X[(size_t)i * N + j]));
+                        for (int i = 0; i < N; i++) {
+                            double want = sc * X[(size_t)i * N + j];
+                            double d    = std::fabs(b[i] - want);
+                            if (!std::isfinite(b[i]))
+                                d = 1e300;
+                            dev = std::max(dev, d / (sc * colmax + 1e-320));
+                        }
+                        hom[si] = std::max(hom[si], dev);
+                    }
+                }
+                o.vec(nm + "_hom", hom);
+            }
             // wide dynamic range right-hand sides
             std::vector<double> W((size_t)6 * N), WX((size_t)6 * N);
             static const double mags[] = {1e150, 1e-150, 1.0, 1e100, 1e-100, 3.0};
